@@ -311,6 +311,7 @@ var profC04 = profile{
 	accts: [2]int{1, 2}, browsers: [2]int{1, 2}, middlewares: []string{""},
 	// the counter is kept by storage writes: a login step whose write fails must not be reported as a clean outcome
 	faultPct: 8, faultOps: []string{"login", "otplogin", "totpvalidate", "smsvalidate"},
+	badQuery: 10, // JSON mode only: the attempt is judged as usual whatever the query string looks like
 	tweak: func(t *rapid.T, c *harness.Config) {
 		c.LockAfter = rapid.IntRange(1, 6).Draw(t, "lockafter4")
 		c.LockWindowS = pick(t, "win", 20, 60, 300, 3600, 86400)
@@ -363,6 +364,7 @@ func TestC04(t *testing.T) {
 		e := genEnv{cfg: cfg, nAcct: len(cfg.Accounts), nBrows: cfg.Browsers}
 		ops := genOps(rt, p, e)
 		decorateFaults(rt, p, ops)
+		decorateQuery(rt, p, cfg, ops)
 		gaps := c04Gaps(cfg)
 		for i := range ops {
 			if ops[i].K == "advance" {
